@@ -82,6 +82,8 @@ def k_location(path: str, norm: str) -> str:
         got = ol.OriginalLocation(fs).for_file(path, PathMakerType.AbsolutePaths, '/')
     finally:
         ol.os = saved
+    if len(fake.path.calls) == 0:
+        return rt.not_applicable('normpath-seam-not-used', 'for_file(%r) did not call original_location.os.path.normpath' % (path,))
     if len(fake.path.calls) != 1 or not (path == fake.path.calls[0]):
         return rt.fail('C18:argument-not-normalised-once', 'for_file(%r): normpath called with %r' % (path, fake.path.calls))
     # norm stands for normpath(path): an arbitrary string here, so the claim covers every normal form
